@@ -127,7 +127,7 @@ def one_internal(sid, phase, third):
     return s.done()
 
 
-def one_responding(sid, third, stall_ms=1300):
+def one_responding(sid, third, stall_ms=1300, chunked=False):
     """the second caller arrives while the runtime is still sending the body of its answer (the upload stalls for a
     while): it is refused at once all the same, and the first invocation completes when the body has arrived"""
     s = Scn(sid, ext=[], timeout_ms=4000, opWaitMs=9000)
@@ -136,7 +136,10 @@ def one_responding(sid, third, stall_ms=1300):
     i1 = s.invoke(caller=1, size=4, seed=1)
     s.wait(tags["rt"])
     s.hold("drv.body:r1", 1)
-    post = s.call("rt", "response", async_=True, id="current", size=3000, seed=9, headers={"X-Verif-Slow-Body": "r1"})
+    hdr = {"X-Verif-Slow-Body": "r1"}
+    if chunked:
+        hdr["X-Verif-Chunked"] = "1"        # the length of the body is not declared
+    post = s.call("rt", "response", async_=True, id="current", size=3000, seed=9, headers=hdr)
     s.until_held("drv.body:r1")
     s.sleep(30)
     t2 = s.invoke(caller=2, size=3, seed=77)
@@ -158,6 +161,7 @@ def scenarios(ctx):
     n = 0
     out.append(one_responding("c10-responding1", False))
     out.append(one_responding("c10-responding2", True))
+    out.append(one_responding("c10-responding3", False, chunked=True))
     for phase in PHASES:
         for third in (False, True):
             for with_ext in (False, True) + (("int",) if phase in ("dispatched", "responded") else ()):
